@@ -1492,7 +1492,7 @@ func (g gen) rest(apps [][]string, depth int, id *int) *RNode {
 		*id++
 		s := Seg{Name: fmt.Sprintf("p%d", *id)}
 		if g.r.Chance(1, 4) {
-			s = Seg{Name: fmt.Sprintf("v%d", *id), Ty: []string{"int", "string", "T1"}[g.r.Intn(3)]}
+			s = Seg{Name: fmt.Sprintf("v%d", *id), Ty: []string{"int", "string", "T1", "T1.f1", "Alpha.T1"}[g.r.Intn(5)]} // dotted references go through the listener's field map
 		}
 		n.PSegs = append(n.PSegs, s)
 	}
